@@ -148,7 +148,7 @@ def corpus():
 
 def gen_cases(tier, seed):
     rnd = random.Random(seed)
-    n = 2000 if tier == "quick" else 100000
+    n = 2000 if tier == "quick" else 300000
     maxfuel = 2000 if tier == "quick" else 20000
     cases = corpus()
     tnames = ["corpus"] * len(cases)
